@@ -1,6 +1,6 @@
 From Coq Require Import ExtrOcamlBasic.
-From HV Require Import Base.Res Base.Str Model.Parse Model.ValKinds Model.ValStr Model.Validate.
+From HV Require Import Base.Res Base.Str Model.Parse Model.ValKinds Model.ValStr Model.Validate Model.ValValue.
 Extraction Language OCaml.
 Extraction "../ocaml/build/c01_model.ml"
   force_types validate run_basic_checks validate_forest fprint icode isev is_err has_error
-  hedstring_init shape_of shapes_eqb.
+  hedstring_init shape_of shapes_eqb value_class_issues vrun.
